@@ -62,7 +62,7 @@ BASE = [
     B('struct {\n\tA int8\n\tB int64\n}', ['struct {\n\tA int8\n\tB int64\n}{1, 2}', 'struct {\n\tA int8\n\tB int64\n}{-1, 5}', 'struct {\n\tA int8\n\tB int64\n}{}'], canon='struct { A int8; B int64 }'),
 ]
 BYGO = {t.go: t for t in BASE}
-EMBEDDABLE_NAMED = ['MyStr', 'MyInt', 'MyF', 'MyI8', 'MyBytes']   # named non-struct types that may be embedded
+EMBEDDABLE_NAMED = ['MyStr', 'MyInt', 'MyF', 'MyI8', 'MyBytes', 'fmt.Stringer', 'error']   # named non-struct types that may be embedded (interfaces too: their methods are promoted, the field is an entry like any other)
 
 # near misses: focus types that must NOT be accepted for a field of the key type
 NEAR = {
@@ -188,10 +188,12 @@ class Gen:
                 st.fields.append(Field(sub.name, None, tag, embedded=True, ptr=True, struct=sub))
             elif x < 0.27:
                 cand = [n for n in EMBEDDABLE_NAMED if n not in used]
+                cand = [n for n in cand if n.split('.')[-1] not in used]
                 if cand:
                     n = r.choice(cand)
                     used.add(n)
-                    st.fields.append(Field(n, BYGO[n], tag, embedded=True))
+                    used.add(n.split('.')[-1])
+                    st.fields.append(Field(n.split('.')[-1], BYGO[n], tag, embedded=True))
                     continue
                 st.fields.append(Field(fname(), r.choice(BASE), tag))
             elif depth < 3 and x < 0.33:
@@ -199,8 +201,13 @@ class Gen:
                 if r.random() < 0.4:   # a large intermediate struct
                     sub.fields.insert(r.randrange(len(sub.fields) + 1), Field('Big%d' % len(sub.fields), BYGO[r.choice(['[40]int64', '[33]string', '[1100]byte'])]))
                 st.fields.append(Field(fname(), None, tag, embedded=False, ptr=r.random() < 0.25, struct=sub))
+            elif x > 0.96:
+                # a blank field: it cannot be named or selected, but it is a field of the struct and takes its place
+                st.fields.append(Field('_', r.choice([BYGO[t] for t in ('int8', 'int32', 'string', 'uint16', '[3]int16', 'bool')])))
             else:
                 st.fields.append(Field(fname(), r.choice(BASE), tag))
+        if all(f.name == '_' for f in st.fields):
+            st.fields.append(Field(fname(), r.choice(BASE)))
         self.structs.append(st)
         return st
 
@@ -353,6 +360,8 @@ func off[S any, F any](s *S, f *F) uintptr { return uintptr(unsafe.Pointer(f)) -
             # fill
             self.w('func fill_%s(s *%s, k int) {' % (st.name, st.name))
             for i, f in enumerate(st.fields):
+                if f.name == '_':
+                    continue
                 if f.struct is not None and not f.ptr:
                     self.w('\tfill_%s(&s.%s, k+%d)' % (f.struct.name, f.name, i + 1))
                 else:
@@ -536,7 +545,7 @@ func off[S any, F any](s *S, f *F) uintptr { return uintptr(unsafe.Pointer(f)) -
             T = e.gotype()
             pure = T[1:] if T.startswith('*') else T
             offexpr = 'rt.NoOffset'
-            if not e.crossing:
+            if not e.crossing and '_' not in e.path + [e.f.name]:
                 offexpr = 'off(s, &s.%s)' % e.sel()
             self.w('\t\t{Key: %s, Name: %s, Type: typeOf[%s](), Pure: typeOf[%s](), Off: func(s *%s) uintptr { return %s }},' % (
                 q(e.key()), q(e.f.name), T, pure, S, offexpr))
@@ -571,7 +580,7 @@ func off[S any, F any](s *S, f *F) uintptr { return uintptr(unsafe.Pointer(f)) -
             T = e.gotype()
             pure = T[1:] if T.startswith('*') else T
             offexpr = 'rt.NoOffset'
-            if not e.crossing:
+            if not e.crossing and '_' not in e.path + [e.f.name]:
                 offexpr = 'off(s, &s.%s)' % e.sel()
             self.w('\t\t{Key: %s, Name: %s, Type: typeOf[%s](), Pure: typeOf[%s](), Off: func(s *%s) uintptr { return %s }},' % (
                 q(e.key()), q(e.f.name), T, pure, S, offexpr))
@@ -660,7 +669,7 @@ func off[S any, F any](s *S, f *F) uintptr { return uintptr(unsafe.Pointer(f)) -
             if cn not in seent:
                 seent.add(cn)
                 res = self.resolve_type(L, cn)
-                if not res.crossing:
+                if not res.crossing and res.f.name != '_':
                     reqs.append(('type', res.gotype(), res))
         return reqs
 
@@ -812,7 +821,7 @@ func off[S any, F any](s *S, f *F) uintptr { return uintptr(unsafe.Pointer(f)) -
         shadowed entries (same key as an earlier one) that no by-name request can reach"""
         S = st.name
         r = self.r
-        idxs = [i for i, e in enumerate(L) if not e.crossing]
+        idxs = [i for i, e in enumerate(L) if not e.crossing and e.f.name != '_']
         shadowed = [i for i in idxs if self.resolve_name(L, L[i].key()) is not L[i]]
         others = [i for i in idxs if i not in shadowed]
         r.shuffle(others)
@@ -1215,7 +1224,7 @@ def q(s):
     return '"' + s.replace('\\', '\\\\').replace('"', '\\"').replace('\n', '\\n').replace('\t', '\\t') + '"'
 
 def ok_name(k):
-    return k != ''
+    return k != '' and k != '_'
 
 def first_key(s, f):
     for g in s.fields:
